@@ -23,6 +23,23 @@ Sub-checks:
 * totality   - from_wbem_uri(text) of both classes returns a path of that
                class or raises ValueError for arbitrary text, grammar
                fragments and mutated printed URIs.
+* history    - the same laws for LIVE objects: one path is printed, modified
+               in place through the documented routes (attribute setters,
+               the modifiable keybindings dictionary, the dictionary
+               interface of the path, the keybindings setter - at the top
+               level or inside a reference keybinding at any depth, which is
+               shared, not copied), copied (copy()/deepcopy), made a
+               reference key of another live path, printed and parsed again;
+               parse results are live paths too.  After every step the URI
+               of each touched live path in every format is the URI of an
+               equal path built from scratch from a model (a graph of recipe
+               nodes that knows which children are shared), the printed URI
+               parses back to the model, and every text parsed earlier
+               parses to the same path as the first time.  (Not in DESIGN.md
+               4.7; the other sub-checks build a new object per example and
+               call each API once, so that anything pywbem remembers between
+               two calls - a cached URI, a parse result handed out twice -
+               was invisible.)
 
 A failing round trip is attributed to a root cause by repair (see
 NEUTRALIZERS): the recipe is simplified feature by feature; the feature whose
@@ -66,7 +83,20 @@ RULE = (
     "nested reference, a host, or a string key containing one of \" \\ , = "
     "newline ' (roundtrip, canonical, ambiguous); at least one re-spelled "
     "key or head (spellings); text containing at least one of . = : / "
-    "(totality).  Distinct = distinct generated example.")
+    "(totality).  history: a start path (instance path with reference keys "
+    "to depth 2, or class path) and 2-8 steps on a pool of up to 4 live "
+    "paths: parse the printed URI of a live path (4 formats; the result "
+    "joins the pool), parse an earlier text again, copy()/deepcopy, set "
+    "classname/namespace/host (new value or case-swapped), set/delete a "
+    "keybinding via p.keybindings[k] / .update() / .pop() / p[k] / "
+    "p.update(), replace all keybindings via the setter, make another live "
+    "path a reference key - each on the top-level path or on a nested "
+    "reference path chosen by index (nesting kept <= 3); the URIs of the "
+    "touched paths are requested after every 1st/2nd/3rd step or only at "
+    "the end, and for all live paths, one round trip each and all earlier "
+    "texts at the end.  A history ends at its first violation.  Non-trivial "
+    "= at least one modification applied or more than one live path.  "
+    "Distinct = distinct generated example.")
 ASSUMPTIONS = [
     "CIM names (class, keybinding, namespace components) follow the DSP0004 "
     "identifier grammar in ASCII; 'differs only in lexical case' swaps the "
@@ -94,6 +124,27 @@ ASSUMPTIONS = [
     "(charValue, booleanValue, integerValue, realValue); octal literals "
     "containing the digit 0 and other forms pywbem does not claim are not "
     "generated",
+    "history uses only modification routes the class documentation names: "
+    "the settable attributes classname/namespace/host/keybindings, the "
+    "'modifiable dictionary' returned by keybindings (item assignment, del, "
+    "update, pop) and the dictionary interface of CIMInstanceName itself "
+    "(p[k] = v, del p[k], p.update()); a keybinding is always set under "
+    "its existing spelling or a new name (which spelling survives an "
+    "assignment under a case variant is not documented) and the last "
+    "keybinding is never removed",
+    "sharing: a CIMInstanceName assigned as a keybinding value and the "
+    "reference values of copy() are shared with the original (copy() "
+    "docstring: 'mutable object types in the keybindings dictionary are "
+    "not copied'); the model follows what pywbem does here (identity is "
+    "inspected after the call), so either behaviour is accepted.  "
+    "from_wbem_uri() results are expected to be independent of every "
+    "earlier result: parsing the same text again gives a path equal to the "
+    "first result as it was returned, whatever was done to that result "
+    "afterwards",
+    "history start paths and the values set in steps have the features "
+    "with their own roundtrip findings (NEUTRALIZERS) simplified away; a "
+    "path that reaches such a feature through attribute steps (host "
+    "without namespace) is not parsed back in the historical format",
 ]
 
 FORMATS = ('standard', 'historical', 'canonical', 'cimobject')
@@ -1232,7 +1283,6 @@ class _Hist:
         self.seq = 0
         self.log = []       # (seq, node, route label) of modifications
         self.parsed = []    # dict(kind, text, fmt, want, seq, nodes)
-        self.handed = []    # path objects inside earlier parse results
 
     def add(self, recipe):
         i = len(self.nodes)
@@ -1295,11 +1345,48 @@ def _h_print(obj, fmt):
     return _print(obj, fmt)
 
 
-def _h_unexpected_sharing(h):
+class _Stop(Exception):
     """
-    Is one live path object found at places that are different nodes of the
-    model (i.e. shared although no documented sharing took place)?
+    Ends a history after its first violation (what follows on the same live
+    objects would be consequences of it, not further findings).
     """
+
+
+# Path objects (at any nesting depth) that from_wbem_uri() has handed out in
+# this process, by id().  Only used to name the root cause of a failure
+# (never to detect one): state kept inside pywbem between two parser calls
+# outlives the history in which it was created.
+_HANDED = {}
+
+
+def _h_handed(q):
+    if len(_HANDED) > 100000:
+        _HANDED.clear()
+    for o in _nested_objects(q):
+        ent = _HANDED.get(id(o))
+        if ent is None or ent[0] is not o:
+            _HANDED[id(o)] = [o, 1]
+        else:
+            ent[1] += 1
+
+
+def _h_was_handed(o, times=1):
+    ent = _HANDED.get(id(o))
+    return ent is not None and ent[0] is o and ent[1] >= times
+
+
+def _h_sharing(h, q=None):
+    """
+    Root cause attribution: is one path object found at two places that are
+    different nodes of the model, i.e. shared although no documented sharing
+    (reference keybinding set to an existing object, copy()) took place?
+    -> signature or None
+    """
+    if q is not None:
+        if any(_h_was_handed(o) for o in _nested_objects(q)):
+            return 'from_wbem_uri-result-contains-path-object-of-an-' \
+                'earlier-result'
+        return None
     seen = []
     for e in h.pool:
         for keypath, nid in h.routes(e['root']):
@@ -1307,14 +1394,27 @@ def _h_unexpected_sharing(h):
                 o = _follow(e['obj'], keypath)
             except (KeyError, AttributeError):
                 continue
+            if _h_was_handed(o, 2):
+                # (also by a parser call of an earlier history)
+                return 'from_wbem_uri-result-contains-path-object-of-an-' \
+                    'earlier-result'
             for o2, nid2 in seen:
                 if o is o2 and nid != nid2:
-                    return True
+                    if _h_was_handed(o):
+                        return 'from_wbem_uri-result-contains-path-' \
+                            'object-of-an-earlier-result'
+                    return 'independent-paths-share-a-nested-path-object'
             seen.append((o, nid))
-    return False
+    return None
 
 
-def _h_sweep(ctx, h, entries):
+def _h_component(d):
+    "component class of a _diff() result"
+    return ('nested-' if d.startswith('ref.') else '') + \
+        d.replace('ref.', '').split(':')[0]
+
+
+def _h_sweep(ctx, h, entries, fmts=_H_FMTS):
     """
     The URI of every live path in every format is the URI of an equal path
     built from scratch.
@@ -1322,7 +1422,7 @@ def _h_sweep(ctx, h, entries):
     for e in entries:
         recipe = h.tree(e['root'])
         nodes = h.reach(e['root'])
-        for fmt in _H_FMTS:
+        for fmt in fmts:
             fresh = S.build(recipe)
             u1 = _h_print(e['obj'], fmt)
             u2 = _h_print(fresh, fmt)
@@ -1342,17 +1442,17 @@ def _h_sweep(ctx, h, entries):
             labels = sorted(set(
                 ('' if n == e['root'] else 'nested-') + lab
                 for _s, n, lab in mods))
+            sig = _h_sharing(h)
             d = _diff(e['obj'], fresh)
-            if d is not None:
+            if sig is not None:
+                pass
+            elif d is not None:
                 # the object itself is not what the documented semantics of
                 # the modification give
                 sig = 'modified-path-is-not-equal-to-path-built-from-' \
-                    'scratch:' + d.replace('ref.', '')
-            elif _h_unexpected_sharing(h):
-                sig = 'uri-changes-when-an-independent-path-is-modified:' \
-                    'nested-path-object-shared-unexpectedly'
+                    'scratch:' + _h_component(d)
             else:
-                sig = 'uri-of-modified-path-differs-from-uri-of-equal-path-' \
+                sig = 'uri-of-live-path-differs-from-uri-of-equal-path-' \
                     'built-from-scratch:%s:after-%s' % (
                         fmt, 'no-modification' if not labels else
                         labels[0] if len(labels) == 1 else
@@ -1361,12 +1461,7 @@ def _h_sweep(ctx, h, entries):
                      'prints %r (%s); modifications since the last request: '
                      '%r' % (fmt, e['obj'], u1, u2, _first_diff(u1, u2),
                              [lab for _s, _n, lab in mods]))
-            # keep exploring: judge later requests by later modifications
-            e['ok'][fmt] = h.seq
-
-
-def _h_shares(h, q):
-    return any(o is o2 for o in _nested_objects(q) for o2 in h.handed)
+            raise _Stop()
 
 
 def _h_parse(ctx, h, e, fmt, classes, join):
@@ -1379,6 +1474,8 @@ def _h_parse(ctx, h, e, fmt, classes, join):
         classes.add('parse:skipped-feature-with-own-finding')
         return []
     kind = e['kind']
+    # (a wrong URI is the finding of the sweep, not of the parser)
+    _h_sweep(ctx, h, [e], (fmt,))
     u = _print(e['obj'], fmt)
     ctx.event('parse-of-uri-of-live-path')
     if h.since(-1, h.reach(e['root'])):
@@ -1386,33 +1483,30 @@ def _h_parse(ctx, h, e, fmt, classes, join):
     try:
         q = _parser(kind)(u)
     except ValueError as exc:
-        ctx.fail('printed-uri-of-modified-path-rejected:%s:%s' % (
+        ctx.fail('printed-uri-of-live-path-rejected:%s:%s' % (
             fmt, _msgclass(exc)), 'format %s: %r printed as %r is rejected: '
             '%s' % (fmt, e['obj'], u, exc))
-        return []
+        raise _Stop()
     want = _expected(S.build(recipe), fmt, [0])
     d = _diff(q, want)
-    before = [p for p in h.parsed if p['kind'] == kind and p['text'] == u]
     if d is not None:
-        if _h_shares(h, q):
-            sig = 'from_wbem_uri-result-contains-path-object-of-an-' \
-                'earlier-result'
-        elif before:
+        sig = _h_sharing(h, q)
+        if sig is None and any(p['kind'] == kind and p['text'] == u
+                               for p in h.parsed):
             sig = 'from_wbem_uri-result-for-the-same-text-changed:' + \
-                _coarse('not-equal:' + d)
-        else:
-            sig = 'round-trip-of-modified-path:%s:%s' % (
-                fmt, _coarse('not-equal:' + d))
+                _h_component(d)
+        if sig is None:
+            sig = 'round-trip-of-live-path:%s:%s' % (fmt, _h_component(d))
         ctx.fail(sig, 'format %s: live %r printed as %r is parsed as %r, '
                  'expected %r' % (fmt, e['obj'], u, q, want))
-        return []
+        raise _Stop()
     want_recipe = _recipe_of(want)
     if fmt == 'canonical':
         want_recipe = _lowered(want_recipe)
     ent = dict(kind=kind, text=u, fmt=fmt, want=want_recipe, seq=h.seq,
                nodes=set())
     h.parsed.append(ent)
-    h.handed.extend(_nested_objects(q))
+    _h_handed(q)
     if join and len(h.pool) < _H_POOL:
         root = h.add(want_recipe)
         ent['nodes'] = h.reach(root)
@@ -1430,16 +1524,13 @@ def _h_reparse(ctx, h, ent):
     want = S.build(ent['want'])
     d = _diff(q, want)
     if d is not None:
-        if _h_shares(h, q):
-            sig = 'from_wbem_uri-result-contains-path-object-of-an-' \
-                'earlier-result'
-        else:
-            sig = 'from_wbem_uri-result-for-the-same-text-changed:' + \
-                _coarse('not-equal:' + d)
+        sig = _h_sharing(h, q) or \
+            'from_wbem_uri-result-for-the-same-text-changed:' + \
+            _h_component(d)
         ctx.fail(sig, '%r was parsed as %r before and is parsed as %r now' %
                  (ent['text'], want, q))
-    else:
-        h.handed.extend(_nested_objects(q))
+        raise _Stop()
+    _h_handed(q)
 
 
 def _h_keyname(node, idx, newname):
@@ -1593,6 +1684,44 @@ def _h_copy(h, e, how, classes):
     return [h.join(root, obj, e['kind'])]
 
 
+def _h_run(ctx, h, every, steps, ffmt, classes, nmod):
+    if every:
+        _h_sweep(ctx, h, h.pool)
+    pending = []
+    for n, step in enumerate(steps):
+        op = step[0]
+        if op == 'parse':
+            e = h.pool[step[1] % len(h.pool)]
+            users = _h_parse(ctx, h, e, step[2], classes, True)
+        elif op == 'reparse':
+            users = []
+            if h.parsed:
+                _h_reparse(ctx, h, h.parsed[step[1] % len(h.parsed)])
+        elif op == 'copy':
+            e = h.pool[step[1] % len(h.pool)]
+            users = _h_copy(h, e, step[2], classes)
+        else:
+            users = _h_modify(ctx, h, step, classes)
+            if users is not None:
+                nmod[0] += 1
+        if users is None:
+            classes.add('step-not-applicable:' + op)
+            continue
+        classes.add('op:' + op)
+        pending.extend(u for u in users
+                       if not any(u is p for p in pending))
+        if every and (n + 1) % every == 0:
+            _h_sweep(ctx, h, pending)
+            pending = []
+    # at the end: every live path in every format, the round trip of
+    # every live path, and every text parsed so far once more
+    _h_sweep(ctx, h, h.pool)
+    for e in list(h.pool):
+        _h_parse(ctx, h, e, ffmt, classes, False)
+    for ent in list(h.parsed):
+        _h_reparse(ctx, h, ent)
+
+
 def history_oracle(ctx, ex):
     (kind, recipe), every, steps, ffmt = ex
     recipe = _neutral(recipe)
@@ -1600,45 +1729,15 @@ def history_oracle(ctx, ex):
     classes = set(['kind:' + kind, 'steps:%d' % len(steps),
                    'uri-requests:' + ('only-at-the-end' if not every else
                                       'every-%d-steps' % every)])
-    nmod = 0
+    nmod = [0]
     with warnings.catch_warnings():
         warnings.simplefilter('ignore')
         h.join(h.add(recipe), S.build(recipe), kind)
-        if every:
-            _h_sweep(ctx, h, h.pool)
-        pending = []
-        for n, step in enumerate(steps):
-            op = step[0]
-            if op == 'parse':
-                e = h.pool[step[1] % len(h.pool)]
-                users = _h_parse(ctx, h, e, step[2], classes, True)
-            elif op == 'reparse':
-                users = []
-                if h.parsed:
-                    _h_reparse(ctx, h, h.parsed[step[1] % len(h.parsed)])
-            elif op == 'copy':
-                e = h.pool[step[1] % len(h.pool)]
-                users = _h_copy(h, e, step[2], classes)
-            else:
-                users = _h_modify(ctx, h, step, classes)
-                if users is not None:
-                    nmod += 1
-            if users is None:
-                classes.add('step-not-applicable:' + op)
-                continue
-            classes.add('op:' + op)
-            pending.extend(u for u in users
-                           if not any(u is p for p in pending))
-            if every and (n + 1) % every == 0:
-                _h_sweep(ctx, h, pending)
-                pending = []
-        # at the end: every live path in every format, the round trip of
-        # every live path, and every text parsed so far once more
-        _h_sweep(ctx, h, h.pool)
-        for e in list(h.pool):
-            _h_parse(ctx, h, e, ffmt, classes, False)
-        for ent in list(h.parsed):
-            _h_reparse(ctx, h, ent)
+        try:
+            _h_run(ctx, h, every, steps, ffmt, classes, nmod)
+        except _Stop:
+            classes.add('history-ended-by-violation')
+    nmod = nmod[0]
     classes.add('modifications:%s' % (nmod if nmod < 4 else '4+'))
     classes.add('live-paths:%d' % len(h.pool))
     classes.add('refdepth:%d' % max(h.depth(e['root']) for e in h.pool))
@@ -1690,6 +1789,19 @@ SENSITIVITY = [
     "-> canonical/canonical-uri-depends-on-classname",
     "_kbstr_to_cimval: char16 length check replaced by cimval[0] -> "
     "totality/leak:IndexError@_cim_obj:_kbstr_to_cimval:returncimval_0",
+    "CIMInstanceName remembers its canonical URI in a slot; dropped in the "
+    "attribute setters and in __setitem__/__delitem__/update() of the path, "
+    "not when the keybindings dictionary or a referenced path is modified "
+    "(seeded change C07-6) -> history/uri-of-live-path-differs-from-uri-of-"
+    "equal-path-built-from-scratch:canonical:after-keybindings-dict (841 "
+    "hits), :after-nested-keybindings-dict (120), :after-nested-keybindings-"
+    "setter (48), :after-nested-item-interface (31), :after-nested-attribute "
+    "(29), :after-several-modifications (46); no other sub-check fires",
+    "functools.lru_cache on _kbstr_to_cimval: reference keybindings of "
+    "different parse results are one shared object (seeded change C07-5) -> "
+    "history/from_wbem_uri-result-contains-path-object-of-an-earlier-result "
+    "(122 hits: a text is parsed, a nested path of the result is modified, "
+    "the text is parsed again)",
 ]
 
 SUBCHECKS = [
